@@ -256,6 +256,13 @@ def oracle_repr(ck, rng):
         fails = []
         m2 = Molecules.from_quat(pos, mol.quaternion())
         if not np.allclose(m2.rotator.as_matrix()[0], M, atol=1e-6): fails.append("quaternion")
+        # a quaternion of any positive length denotes the same rotation: axes stay orthonormal
+        gq = float(rng.choice([2.5, 0.3, 7.0]))
+        m2q = Molecules.from_quat(pos, mol.quaternion() * gq)
+        if not np.allclose(m2q.rotator.as_matrix()[0], M, atol=1e-6) or not np.allclose(m2q.matrix()[0], M, atol=1e-6) \
+                or not np.allclose([np.linalg.norm(m2q.z[0]), np.linalg.norm(m2q.y[0]), np.linalg.norm(m2q.x[0])], 1.0, atol=1e-6) \
+                or not np.allclose(m2q.copy().matrix()[0], M, atol=1e-6) or not np.allclose(m2q.subset([0]).z[0], M @ [1, 0, 0], atol=1e-6):
+            fails.append("quaternion-nonunit")
         m2 = Molecules.from_rotvec(pos, mol.rotvec())
         if not np.allclose(m2.rotator.as_matrix()[0], M, atol=1e-6): fails.append("rotvec")
         m2 = Molecules.from_matrix(pos, mol.matrix())
